@@ -24,6 +24,7 @@ CLAUSES = {
     10: ('C01', 'ExitCodeZero'), 11: ('C01', 'EveryReachableRequested'), 12: ('C01', 'RequestedOnce'),
     13: ('C01', 'AllRowsFinal'), 14: ('C01', 'Terminates'), 15: ('C01', 'RedirectTargetRequestedAgain'),
     20: ('C02', 'RequestOffSite'), 21: ('C02', 'RequestOutOfScope'), 22: ('C02', 'RobotsOfUnvisitedOrigin'),
+    23: ('C02', 'RobotsRedirectTargetOutOfScope'),
     30: ('C20', 'RobotsFetchedWhenOff'), 31: ('C20', 'RobotsFetchedAgain'), 32: ('C20', 'PageBeforeRobots'),
     33: ('C20', 'DisallowedRequested'), 34: ('C20', 'NofollowLinkFollowed'),
     40: ('C18', 'VisitRequestBound'), 41: ('C18', 'RetriedAfterTriesExhausted'), 42: ('C18', 'EndedWithPendingWork'),
@@ -41,7 +42,7 @@ def conv_events(ev):
         e = dict(e)
         k = e['e']
         if k == 'req':
-            e = {x: e[x] for x in ('e', 'n', 'u', 'kind', 'h', 'item')}
+            e = {x: e.get(x, False) for x in ('e', 'n', 'u', 'kind', 'h', 'item', 'rj')}
         elif k == 'resp':
             e = {x: e[x] for x in ('e', 'n', 'u', 'cls', 'h')}
         elif k == 'exit':
